@@ -73,10 +73,12 @@ theorem foldE_append (k : Op) (l1 : List (Entry α)) (e : Entry α) (t : List (E
     obtain ⟨o, n, b⟩ := e
     simp only [List.singleton_append]
     rw [foldE]; simp only [] at he; simp [he, foldE]
-  case case3 e1 o n b t' h ih => simp only [List.cons_append]; rw [foldE]; simp only [h, if_true]; exact ih
+  case case3 e1 n b t' ih =>
+    simp only [List.cons_append] at ih ⊢
+    rw [foldE]; simp only [if_true]; exact ih
   case case4 e1 o n b t' h ih =>
-    simp only [List.cons_append]; rw [foldE]; simp only [h, if_false]
-    rw [show (o, n, b) :: (t' ++ e :: t) = ((o, n, b) :: t') ++ e :: t from rfl, ih]; rfl
+    simp only [List.cons_append] at ih ⊢
+    rw [foldE]; simp only [h, if_false]; rw [ih]
 
 /-- locality: blocks that start with an operator other than `k` are folded independently -/
 theorem foldE_flatMap {ι : Type} (k : Op) (f : ι → List (Entry α))
@@ -97,19 +99,29 @@ end generic
 section field
 variable {K : Type} [Field K]
 
-/-- the five operators in a field; `pw` is an arbitrary power function (no law is needed: chained `**`
-    are outside the reference grammar) -/
-def fieldAlg (pw : K → K → K) : Alg K where
+/-- an arbitrary power function (no law is needed for the precedence theorem: chained `**` are outside
+    the reference grammar) -/
+class HasPw (K : Type) where
+  pw : K → K → K
+
+variable [HasPw K]
+
+/-- the five operators in a field -/
+instance fieldAlg : Alg K where
   neg := fun a => -a
   bin := fun o a b => match o with
-    | .pow => pw a b | .div => a / b | .mul => a * b | .sub => a - b | .add => a + b
-
-variable (pw : K → K → K)
+    | .pow => HasPw.pw a b | .div => a / b | .mul => a * b | .sub => a - b | .add => a + b
 
 def sgn (n : Bool) (a : K) : K := if n then -a else a
 
-omit [Field K] in
-theorem negIf_field [Field K] (n : Bool) (a : K) : @negIf K (fieldAlg pw) n a = sgn n a := rfl
+@[simp] theorem alg_neg (a : K) : (Alg.neg a : K) = -a := rfl
+@[simp] theorem alg_pow (a b : K) : Alg.bin Op.pow a b = HasPw.pw a b := rfl
+@[simp] theorem alg_div (a b : K) : Alg.bin Op.div a b = a / b := rfl
+@[simp] theorem alg_mul (a b : K) : Alg.bin Op.mul a b = a * b := rfl
+@[simp] theorem alg_sub (a b : K) : Alg.bin Op.sub a b = a - b := rfl
+@[simp] theorem alg_add (a b : K) : Alg.bin Op.add a b = a + b := rfl
+
+theorem negIf_field (n : Bool) (a : K) : negIf n a = sgn n a := rfl
 
 /-- standard left-to-right value of a product/quotient chain (entries: `true` = division) -/
 def tv (x : K) (l : List (Bool × Bool × K)) : K :=
@@ -134,48 +146,59 @@ theorem tv_sgn (n : Bool) (y : K) (l : List (Bool × Bool × K)) : tv (sgn n y) 
 def mdOp (d : Bool) : Op := if d then Op.div else Op.mul
 def mdEntries (l : List (Bool × Bool × K)) : List (Entry K) := l.map (fun e => (mdOp e.1, e.2.1, e.2.2))
 
-/-- `/` first: what remains is a chain of products with the same standard value -/
+/-- `/` first, computed: the head and the remaining factors of the chain of products -/
+def dchain : K → List (Bool × Bool × K) → K × List (Bool × K)
+  | x, [] => (x, [])
+  | x, (true, m, b) :: l => dchain (x / sgn m b) l
+  | x, (false, m, b) :: l => (x, (m, (dchain b l).1) :: (dchain b l).2)
+
+/-- `/` first: what remains is a chain of products ... -/
 theorem foldE_div_chain (o : Op) (n : Bool) (x : K) (l : List (Bool × Bool × K)) :
-    ∃ (g : K) (l' : List (Bool × K)),
-      @foldE K (fieldAlg pw) Op.div ((o, n, x) :: mdEntries l) = (o, n, g) :: l'.map (fun e => (Op.mul, e.1, e.2))
-      ∧ tv g (l'.map (fun e => (false, e.1, e.2))) = tv x l := by
+    foldE Op.div ((o, n, x) :: mdEntries l)
+      = (o, n, (dchain x l).1) :: (dchain x l).2.map (fun e => (Op.mul, e.1, e.2)) := by
   induction l generalizing o n x with
-  | nil => exact ⟨x, [], by simp [mdEntries, foldE], rfl⟩
+  | nil => simp [mdEntries, foldE, dchain]
   | cons e l ih =>
     obtain ⟨d, m, b⟩ := e
     cases d
-    · -- a product: the quotient chain that follows is folded on its own
-      obtain ⟨g, l', h1, h2⟩ := ih Op.mul m b
-      refine ⟨x, (m, g) :: l', ?_, ?_⟩
-      · simp only [mdEntries, List.map_cons, mdOp, Bool.false_eq_true, if_false] at h1 ⊢
-        rw [foldE]; simp only [show (Op.mul = Op.div) = False from by simp, if_false]
-        rw [h1]
-      · simp only [List.map_cons, tv, List.foldl_cons, Bool.false_eq_true, if_false]
-        have e1 := tv_mul x (sgn m g) (l'.map (fun e => (false, e.1, e.2)))
-        have e2 := tv_mul x (sgn m b) l
-        simp only [tv] at e1 e2 h2
-        rw [e1, e2]
-        have e3 := tv_sgn m g (l'.map (fun e => (false, e.1, e.2)))
-        have e4 := tv_sgn m b l
-        simp only [tv] at e3 e4
-        rw [e3, e4, h2]
-    · obtain ⟨g, l', h1, h2⟩ := ih o n (x / sgn m b)
-      refine ⟨g, l', ?_, ?_⟩
-      · simp only [mdEntries, List.map_cons, mdOp, if_true] at h1 ⊢
-        rw [foldE]; simp only [if_true]
-        exact h1
-      · rw [h2]; simp [tv]
+    · have h1 := ih Op.mul m b
+      simp only [mdEntries, List.map_cons, mdOp, Bool.false_eq_true, if_false, dchain] at h1 ⊢
+      rw [foldE]; simp only [show (Op.mul = Op.div) = False from by simp, if_false]
+      rw [h1]
+    · have h1 := ih o n (x / sgn m b)
+      simp only [mdEntries, List.map_cons, mdOp, if_true, dchain] at h1 ⊢
+      rw [foldE]; simp only [if_true]
+      exact h1
+
+/-- ... with the same standard value -/
+theorem tv_dchain (x : K) (l : List (Bool × Bool × K)) :
+    tv (dchain x l).1 ((dchain x l).2.map (fun e => (false, e.1, e.2))) = tv x l := by
+  induction l generalizing x with
+  | nil => rfl
+  | cons e l ih =>
+    obtain ⟨d, m, b⟩ := e
+    cases d
+    · have h2 := ih b
+      simp only [dchain, List.map_cons, tv, List.foldl_cons, Bool.false_eq_true, if_false]
+      have e1 := tv_mul x (sgn m (dchain b l).1) ((dchain b l).2.map (fun e => (false, e.1, e.2)))
+      have e2 := tv_mul x (sgn m b) l
+      have e3 := tv_sgn m (dchain b l).1 ((dchain b l).2.map (fun e => (false, e.1, e.2)))
+      have e4 := tv_sgn m b l
+      simp only [tv] at e1 e2 e3 e4 h2
+      rw [e1, e2, e3, e4, h2]
+    · have h2 := ih (x / sgn m b)
+      simp only [dchain]; rw [h2]; simp [tv]
 
 /-- then `*`: a chain of products is folded from the left -/
 theorem foldE_mul_chain (o : Op) (n : Bool) (g : K) (l' : List (Bool × K)) :
-    @foldE K (fieldAlg pw) Op.mul ((o, n, g) :: l'.map (fun e => (Op.mul, e.1, e.2)))
+    foldE Op.mul ((o, n, g) :: l'.map (fun e => (Op.mul, e.1, e.2)))
       = [(o, n, tv g (l'.map (fun e => (false, e.1, e.2))))] := by
   induction l' generalizing g with
   | nil => simp [foldE, tv]
   | cons e l' ih =>
     simp only [List.map_cons]
     rw [foldE]; simp only [if_true]
-    rw [ih]; simp [tv, fieldAlg, negIf, sgn]
+    rw [ih]; simp [tv, negIf, sgn]
 
 /-- standard left-to-right value of a sum/difference chain (entries: `true` = subtraction) -/
 def sv (x : K) (l : List (Bool × K)) : K :=
@@ -192,44 +215,186 @@ theorem sv_add (x y : K) (l : List (Bool × K)) : sv (x + y) l = x + sv y l := b
 
 def asOp (d : Bool) : Op := if d then Op.sub else Op.add
 
-/-- `-` first (unary minus signs already applied): what remains is a chain of sums with the same value -/
+/-- `-` first, computed -/
+def schain : K → List (Bool × K) → K × List K
+  | x, [] => (x, [])
+  | x, (true, b) :: l => schain (x - b) l
+  | x, (false, b) :: l => (x, (schain b l).1 :: (schain b l).2)
+
+/-- `-` first (unary minus signs already applied): what remains is a chain of sums ... -/
 theorem foldE_sub_chain (o : Op) (x : K) (l : List (Bool × K)) :
-    ∃ (g : K) (l' : List K),
-      @foldE K (fieldAlg pw) Op.sub ((o, false, x) :: l.map (fun e => (asOp e.1, false, e.2)))
-        = (o, false, g) :: l'.map (fun e => (Op.add, false, e))
-      ∧ sv g (l'.map (fun e => (false, e))) = sv x l := by
+    foldE Op.sub ((o, false, x) :: l.map (fun e => (asOp e.1, false, e.2)))
+      = (o, false, (schain x l).1) :: (schain x l).2.map (fun e => (Op.add, false, e)) := by
   induction l generalizing o x with
-  | nil => exact ⟨x, [], by simp [foldE], rfl⟩
+  | nil => simp [foldE, schain]
   | cons e l ih =>
     obtain ⟨d, b⟩ := e
     cases d
-    · obtain ⟨g, l', h1, h2⟩ := ih Op.add b
-      refine ⟨x, g :: l', ?_, ?_⟩
-      · simp only [List.map_cons, asOp, Bool.false_eq_true, if_false] at h1 ⊢
-        rw [foldE]; simp only [show (Op.add = Op.sub) = False from by simp, if_false]
-        rw [h1]
-      · simp only [List.map_cons, sv, List.foldl_cons, Bool.false_eq_true, if_false]
-        have e1 := sv_add x g (l'.map (fun e => (false, e)))
-        have e2 := sv_add x b l
-        simp only [sv] at e1 e2 h2
-        rw [e1, e2, h2]
-    · obtain ⟨g, l', h1, h2⟩ := ih o (x - b)
-      refine ⟨g, l', ?_, ?_⟩
-      · simp only [List.map_cons, asOp, if_true] at h1 ⊢
-        rw [foldE]; simp only [if_true]
-        simpa [fieldAlg, negIf] using h1
-      · rw [h2]; simp [sv]
+    · have h1 := ih Op.add b
+      simp only [List.map_cons, asOp, Bool.false_eq_true, if_false, schain] at h1 ⊢
+      rw [foldE]; simp only [show (Op.add = Op.sub) = False from by simp, if_false]
+      rw [h1]
+    · have h1 := ih o (x - b)
+      simp only [List.map_cons, asOp, if_true, schain] at h1 ⊢
+      rw [foldE]; simp only [if_true]
+      simpa [negIf] using h1
+
+/-- ... with the same standard value -/
+theorem sv_schain (x : K) (l : List (Bool × K)) :
+    sv (schain x l).1 ((schain x l).2.map (fun e => (false, e))) = sv x l := by
+  induction l generalizing x with
+  | nil => rfl
+  | cons e l ih =>
+    obtain ⟨d, b⟩ := e
+    cases d
+    · have h2 := ih b
+      simp only [schain, List.map_cons, sv, List.foldl_cons, Bool.false_eq_true, if_false]
+      have e1 := sv_add x (schain b l).1 ((schain b l).2.map (fun e => (false, e)))
+      have e2 := sv_add x b l
+      simp only [sv] at e1 e2 h2
+      rw [e1, e2, h2]
+    · have h2 := ih (x - b)
+      simp only [schain]; rw [h2]; simp [sv]
 
 theorem foldE_add_chain (o : Op) (g : K) (l' : List K) :
-    @foldE K (fieldAlg pw) Op.add ((o, false, g) :: l'.map (fun e => (Op.add, false, e)))
+    foldE Op.add ((o, false, g) :: l'.map (fun e => (Op.add, false, e)))
       = [(o, false, sv g (l'.map (fun e => (false, e))))] := by
   induction l' generalizing g with
   | nil => simp [foldE, sv]
   | cons e l' ih =>
     simp only [List.map_cons]
     rw [foldE]; simp only [if_true]
-    rw [ih]; simp [sv, fieldAlg, negIf]
+    rw [ih]; simp [sv, negIf]
+
+
+/-! ### assembling: the yield of a derivation of the textbook grammar -/
+
+def PowD.block (o : Op) (n : Bool) (p : PowD K) : List (Entry K) := (o, n, p.base) :: p.yieldTail
+
+def TermD.block (o : Op) (n : Bool) (t : TermD K) : List (Entry K) :=
+  PowD.block o n t.first ++ t.rest.flatMap (fun e => PowD.block (mdOp e.1) e.2.1 e.2.2)
+
+def SumD.blocks (S : SumD K) : List (Entry K) :=
+  TermD.block Op.add S.neg S.first ++ S.rest.flatMap (fun e => TermD.block (asOp e.1) e.2.1 e.2.2)
+
+omit [Field K] [HasPw K] in
+theorem toE_yield (S : SumD K) : toE S.yield = S.blocks := by
+  simp [toE, SumD.yield, SumD.blocks, TermD.block, PowD.block, TermD.yieldTail, mdOp, asOp]
+
+theorem foldE_pow_block (o : Op) (n : Bool) (p : PowD K) : foldE Op.pow (PowD.block o n p) = [(o, n, p.val)] := by
+  obtain ⟨base, exp⟩ := p
+  cases exp with
+  | none => simp [PowD.block, PowD.yieldTail, PowD.val, foldE]
+  | some e => obtain ⟨m, e⟩ := e; simp [PowD.block, PowD.yieldTail, PowD.val, foldE]
+
+/-- the factors of a term, evaluated -/
+def TermD.factors (t : TermD K) : List (Bool × Bool × K) := t.rest.map (fun e => (e.1, e.2.1, e.2.2.val))
+
+theorem foldE_pow_term (o : Op) (n : Bool) (t : TermD K) :
+    foldE Op.pow (TermD.block o n t) = (o, n, t.first.val) :: mdEntries t.factors := by
+  unfold TermD.block
+  rw [foldE_flatMap]
+  · rw [foldE_pow_block]
+    have : ∀ (l : List (Bool × Bool × PowD K)),
+        l.flatMap (fun i => foldE Op.pow (PowD.block (mdOp i.1) i.2.1 i.2.2))
+          = mdEntries (l.map (fun e => (e.1, e.2.1, e.2.2.val))) := by
+      intro l
+      induction l with
+      | nil => rfl
+      | cons e l ih => rw [List.flatMap_cons, ih, foldE_pow_block]; rfl
+    rw [this]; rfl
+  · intro e; exact ⟨_, _, rfl, by cases e.1 <;> simp [mdOp]⟩
+
+theorem termVal_eq (t : TermD K) : t.val = tv t.first.val t.factors := by
+  simp only [TermD.val, tv, TermD.factors, List.foldl_map]
+  congr 1; funext acc e; cases e.1 <;> simp [negIf_field]
+
+theorem foldE_mul_div_pow_term (o : Op) (n : Bool) (t : TermD K) :
+    foldE Op.mul (foldE Op.div (foldE Op.pow (TermD.block o n t))) = [(o, n, t.val)] := by
+  rw [foldE_pow_term, foldE_div_chain, foldE_mul_chain, tv_dchain, termVal_eq]
+
+theorem block_head (o : Op) (n : Bool) (t : TermD K) :
+    ∃ tl, TermD.block o n t = (o, n, t.first.base) :: tl := ⟨_, rfl⟩
+
+theorem foldE_pow_head (o : Op) (n : Bool) (t : TermD K) :
+    ∃ tl, foldE Op.pow (TermD.block o n t) = (o, n, t.first.val) :: tl := ⟨_, foldE_pow_term o n t⟩
+
+theorem foldE_div_head (o : Op) (n : Bool) (t : TermD K) :
+    ∃ x tl, foldE Op.div (foldE Op.pow (TermD.block o n t)) = (o, n, x) :: tl := by
+  rw [foldE_pow_term, foldE_div_chain]; exact ⟨_, _, rfl⟩
+
+/-- the three upper levels on the whole yield: one entry per term -/
+theorem foldE_mul_div_pow_blocks (S : SumD K) :
+    foldE Op.mul (foldE Op.div (foldE Op.pow S.blocks))
+      = (Op.add, S.neg, S.first.val) :: S.rest.map (fun e => (asOp e.1, e.2.1, e.2.2.val)) := by
+  unfold SumD.blocks
+  rw [foldE_flatMap Op.pow _ (fun e => by
+        obtain ⟨tl, h⟩ := block_head (asOp e.1) e.2.1 e.2.2
+        exact ⟨_, _, h, by cases e.1 <;> simp [asOp]⟩)]
+  rw [foldE_flatMap Op.div _ (fun e => by
+        obtain ⟨tl, h⟩ := foldE_pow_head (asOp e.1) e.2.1 e.2.2
+        exact ⟨_, _, h, by cases e.1 <;> simp [asOp]⟩)]
+  rw [foldE_flatMap Op.mul _ (fun e => by
+        obtain ⟨x, tl, h⟩ := foldE_div_head (asOp e.1) e.2.1 e.2.2
+        exact ⟨_, _, h, by cases e.1 <;> simp [asOp]⟩)]
+  rw [foldE_mul_div_pow_term]
+  have : ∀ (l : List (Bool × Bool × TermD K)),
+      l.flatMap (fun i => foldE Op.mul (foldE Op.div (foldE Op.pow (TermD.block (asOp i.1) i.2.1 i.2.2))))
+        = l.map (fun e => (asOp e.1, e.2.1, e.2.2.val)) := by
+    intro l
+    induction l with
+    | nil => rfl
+    | cons e l ih => rw [List.flatMap_cons, ih, foldE_mul_div_pow_term]; rfl
+  rw [this]; rfl
+
+theorem val3_eq (S : SumD K) :
+    S.val3 = sv (sgn S.neg S.first.val) (S.rest.map (fun e => (e.1, sgn e.2.1 e.2.2.val))) := by
+  simp only [SumD.val3, sv, List.foldl_map, negIf_field]
+  congr 1; funext acc e; cases e.1 <;> simp
+
+theorem levelsE_blocks (S : SumD K) :
+    foldE Op.add (foldE Op.sub (applyFlags (foldE Op.mul (foldE Op.div (foldE Op.pow S.blocks)))))
+      = [(Op.add, false, S.val3)] := by
+  rw [foldE_mul_div_pow_blocks]
+  have : applyFlags ((Op.add, S.neg, S.first.val) :: S.rest.map (fun e => (asOp e.1, e.2.1, e.2.2.val)))
+      = (Op.add, false, sgn S.neg S.first.val)
+        :: (S.rest.map (fun e => (e.1, sgn e.2.1 e.2.2.val))).map (fun e => (asOp e.1, false, e.2)) := by
+    simp [applyFlags, negIf_field, List.map_map, Function.comp_def]
+  rw [this, foldE_sub_chain, foldE_add_chain, sv_schain, val3_eq]
 
 end field
+
+/-! ### back to `levels` -/
+
+section bridge
+variable {α : Type} [Alg α]
+
+theorem stage3_sub_unflagged (s : Flat α) (hs : s.WF) :
+    ∀ e ∈ (foldL .mul (foldL .div (foldL .pow s))).2, e.1 = Op.sub → e.2.1 = false := by
+  intro e he h
+  have hq : sk e ∈ skel (foldL .mul (foldL .div (foldL .pow s))) := mem_sk_of_mem he
+  simp only [skel_foldL, List.mem_filter, decide_eq_true_eq] at hq
+  obtain ⟨e', he', hsk⟩ := List.mem_map.mp hq.1.1.1
+  simp only [sk, Prod.mk.injEq] at hsk
+  rw [← hsk.2]; exact hs e' he' (by rw [hsk.1]; exact h)
+
+theorem toE_levels (s : Flat α) (hs : s.WF) :
+    toE (levels s)
+      = foldE Op.add (foldE Op.sub (applyFlags (foldE Op.mul (foldE Op.div (foldE Op.pow (toE s)))))) := by
+  rw [foldE_toE', foldE_toE', foldE_toE']
+  have h := foldE_sub_applyFlags Op.add (foldL .mul (foldL .div (foldL .pow s))).1.1
+      (foldL .mul (foldL .div (foldL .pow s))).1.2 (foldL .mul (foldL .div (foldL .pow s))).2
+      (stage3_sub_unflagged s hs)
+  have h' : toE (foldL .mul (foldL .div (foldL .pow s)))
+      = (Op.add, (foldL .mul (foldL .div (foldL .pow s))).1.1, (foldL .mul (foldL .div (foldL .pow s))).1.2)
+        :: (foldL .mul (foldL .div (foldL .pow s))).2 := rfl
+  rw [h', h]
+  have h2 : ∀ (u : Flat α), (Op.add, false, u.1.2) :: u.2 = toE ((false, u.1.2), u.2) := fun u => rfl
+  have hu : ∀ u : Flat α, u.1.1 = false → ((false, u.1.2), u.2) = u := by
+    intro u h; obtain ⟨⟨f, x⟩, t⟩ := u; simp only at h; subst h; rfl
+  rw [h2, hu _ (foldSub_head_flag _ _), foldE_toE']
+  rfl
+
+end bridge
 
 end TfelVerif.C13
